@@ -77,7 +77,7 @@ def unify(a, b):
 
 # ------------------------------------------------------------------------------------------------ function table
 class Fn:
-    def __init__(self, name, coq, params, ret=None, cls=None, state=None, ret_union=False, fuel=False, pure=False, mutates=(), abstract=False, returns_state=(), locals_=None, es_mut=(), narrow=(), at_mut=()):
+    def __init__(self, name, coq, params, ret=None, cls=None, state=None, ret_union=False, fuel=False, pure=False, mutates=(), abstract=False, returns_state=(), locals_=None, es_mut=(), narrow=(), at_mut=(), drop_calls=()):
         self.name, self.coq, self.params, self.ret, self.cls = name, coq, params, ret, cls
         self.state = state or []          # [(key, coqname, type)] read from self.epistemic_state
         self.ret_union = ret_union        # `return False, x` / `return v, x`  ->  (PFalse, x) / (PVal v, x)
@@ -89,6 +89,7 @@ class Fn:
         self.locals_ = dict(locals_ or {})       # declared types of local variables (Optional[int] cannot be inferred)
         self.returns_state = list(returns_state)   # parameters (solver objects) whose final state is returned with the result
         self.narrow = list(narrow)        # Optional[int] locals read as int under `if x is not None:` (x is not re-bound there)
+        self.drop_calls = list(drop_calls)  # methods of self called as statements for bookkeeping outside the modelled state (named in DESIGN.md)
         self.at_mut = list(at_mut)        # [(attr, type)]: attributes of self the function writes; passed in and returned
         self.es_mut = list(es_mut)        # [(key, type)]: entries of self.epistemic_state the function writes; passed in and returned
 
@@ -760,6 +761,9 @@ class X:
             if ts[0] is None or ts[0] == "world" or (isinstance(ts[0], tuple) and ts[0][0] in ("list", "dict", "set")):
                 return "(py_len %s)" % cs[0], "int", b      # an unknown type is left to Coq's type checker
             fail(e, "len of %r" % (ts[0],))
+        if (name == "hasattr" and len(e.args) == 2 and isinstance(e.args[0], ast.Name) and e.args[0].id == "self" and isinstance(e.args[1], ast.Constant)
+                and any(k == "@" + e.args[1].value for k, _, _ in self.ctx.fn.state)):
+            return "true", "bool", []        # an attribute the function is given as part of the object's state
         if name == "hasattr" and len(e.args) == 2 and isinstance(e.args[1], ast.Constant) and e.args[1].value == "index":
             c, t, b = self.tx(e.args[0], env)
             if t == "cond":
@@ -981,6 +985,8 @@ class X:
         if name == "isinstance" and len(e.args) == 2 and isinstance(e.args[1], ast.Name) and e.args[1].id in ("FNode", "str", "list"):
             c, t, b = self.tx(e.args[0], env)
             kind = e.args[1].id
+            if isinstance(t, tuple) and t[0] == "list" and kind == "list":
+                return "true", "bool", b
             if t == "form":
                 return ("true" if kind == "FNode" else "false"), "bool", b
             if isinstance(t, tuple) and t[0] == "res" and kind == "list":
@@ -1380,6 +1386,11 @@ class B:
             if isinstance(s, ast.Expr) and isinstance(s.value, ast.Constant):
                 continue
             if isinstance(s, ast.Expr) and is_logger_call(s.value):
+                continue
+            if (isinstance(s, ast.Expr) and isinstance(s.value, ast.Call) and isinstance(s.value.func, ast.Attribute) and isinstance(s.value.func.value, ast.Name)
+                    and s.value.func.value.id == "self" and s.value.func.attr in self.ctx.fn.drop_calls):
+                continue
+            if isinstance(s, ast.Import) and all(a.name == "time" for a in s.names):
                 continue
             if isinstance(s, ast.If) and self.is_logging_if(s):
                 continue
@@ -2267,6 +2278,11 @@ TARGETS = [
         Fn("rank_world", "py_RandomMinCRepPreOCF_rank_world", [("world", "world"), ("force_calculation", "bool")], cls="RandomMinCRepPreOCF", ret="int",
            state=[("@conditionals", "at_conditionals", ("dict", "cond")), ("@_impacts", "at_impacts", ("list", "int"))],
            at_mut=[("ranks", ("wdict", "optint"))], locals_={"rank": "optint"}),
+    ]),
+    dict(out="SrcImp", file="inference/preocf.py", requires=[], funcs=[
+        Fn("save_impacts", "py_save_impacts", [], cls="RandomMinCRepPreOCF", state=[("@_impacts", "at_impacts", ("list", "int"))]),
+        Fn("load_impacts", "py_load_impacts", [("impacts", ("list", "int"))], cls="RandomMinCRepPreOCF",
+           state=[("@conditionals", "at_conditionals", ("dict", "cond"))], at_mut=[("_impacts", ("list", "int"))], drop_calls=["save_meta"]),
     ]),
     dict(out="SrcTpo", file="inference/preocf.py", requires=[], funcs=[
         Fn("ranks2tpo", "py_ranks2tpo", [("ranks", ("wdict", "optint"))], locals_={"rank_groups": ("dict", WSET)}, narrow=["rank"]),
